@@ -648,7 +648,12 @@ impl SearchIndex {
         // Vacuum to remove completely
         self.index.vacuum();
 
-        self.statistics.count.remove(*folder_id, doc_info);
+        // Only update the counters when a document was actually
+        // removed, otherwise removing (or updating) a secret that
+        // is not in the index would decrement the folder count
+        if doc_info.is_some() {
+            self.statistics.count.remove(*folder_id, doc_info);
+        }
     }
 
     /// Remove all the documents for a given vault identifier from the index.
